@@ -90,13 +90,15 @@ fn pool(i: usize) -> SetSpec {
 
 impl C06 {
     fn eps(&self, kind: usize) -> Vec<Ep> {
-        let mut v = vec![Ep::TransferOwnership(2), Ep::TransferOwnership(0), Ep::Upgrade, Ep::Migrate];
+        // principal 4 is the all-zero account (renouncing), principal 5 the administered contract itself:
+        // once a role sits there nobody can exercise it any more
+        let mut v = vec![Ep::TransferOwnership(2), Ep::TransferOwnership(0), Ep::TransferOwnership(4), Ep::TransferOwnership(5), Ep::Upgrade, Ep::Migrate];
         match kind {
-            0 => v.extend([Ep::TransferOperatorship(2), Ep::TransferOperatorship(1), Ep::RotateBypass, Ep::RotateBypassOld, Ep::RotateEarlyNoBypass]),
+            0 => v.extend([Ep::TransferOperatorship(2), Ep::TransferOperatorship(1), Ep::TransferOperatorship(4), Ep::TransferOperatorship(5), Ep::RotateBypass, Ep::RotateBypassOld, Ep::RotateEarlyNoBypass]),
             1 => v.extend([Ep::CollectFees, Ep::Refund]),
             2 => v.extend([Ep::AddOperator, Ep::RemoveOperator]),
             3 => v.extend([Ep::SetTrusted, Ep::RemoveTrusted]),
-            _ => v.extend([Ep::SetAdmin(2), Ep::SetAdmin(0), Ep::AddMinter, Ep::RemoveMinter, Ep::Mint]),
+            _ => v.extend([Ep::SetAdmin(2), Ep::SetAdmin(0), Ep::SetAdmin(4), Ep::AddMinter, Ep::RemoveMinter, Ep::Mint]),
         }
         v
     }
@@ -201,6 +203,9 @@ impl Scenario for C06 {
         let target = self.register(&w, c, &p, &keys, &asset);
         let twin = self.register(&w, c, &p, &keys, &asset);
         let probe = env.register(Probe, ());
+        let mut p = p;
+        p.push(Address::from_string(&soroban_sdk::String::from_str(env, "GAAAAAAAAAAAAAAAAAAAAAAAAAAAAAAAAAAAAAAAAAAAAAAAAAAAAWHF")));
+        p.push(target.clone());
         (
             Ctx { w, kind: c, target, twin, p, keys, asset, probe },
             Model { advances: 0, owner: 0, operator: 1, window: false, flag: false, budget: 3, epoch: 1 },
@@ -221,6 +226,10 @@ impl Scenario for C06 {
                 continue;
             }
             for by in [By::P(0), By::P(1), By::P(2), By::P(3), By::Nobody, By::HolderAltered, By::HolderOtherContract] {
+                // nobody can sign for the all-zero account or for the contract itself
+                if matches!(by, By::HolderAltered | By::HolderOtherContract) && self.needs(m, ep).0 >= NP {
+                    continue;
+                }
                 v.push(Act { ep, by });
             }
         }
@@ -355,7 +364,7 @@ fn main() {
         let mut o = Opts::new(tier, if tier == "thorough" { 14 } else { 9 });
         o.min_depth = 4;
         o.xcheck = tier == "thorough";
-        o.rule = "per contract (gateway, gas service, operators, ITS, interchain token): every administrative entry point (ownership / operatorship transfer to a successor, to self and back; upgrade; migrate; operator-bypass rotation with a proof from the latest and from an older retained set; a non-bypass rotation before the minimum delay (refused for every authoriser); collect_fees; refund; add/remove operator; set/remove trusted chain; add/remove minter; owner mint; set_admin) x every candidate authoriser {initial owner, initial operator/collector, successor/beneficiary, stranger, nobody, the current holder signing altered arguments, the current holder authorising the same call on a twin contract}; all histories to fixpoint (payouts / mints / rotations bounded to 3); role queries and the affected configuration compared after every new state".into();
+        o.rule = "per contract (gateway, gas service, operators, ITS, interchain token): every administrative entry point (ownership / operatorship transfer to a successor, to self and back, to the all-zero account and to the contract itself (after which every administrative call is refused for every authoriser); upgrade; migrate; operator-bypass rotation with a proof from the latest and from an older retained set; a non-bypass rotation before the minimum delay (refused for every authoriser); collect_fees; refund; add/remove operator; set/remove trusted chain; add/remove minter; owner mint; set_admin) x every candidate authoriser {initial owner, initial operator/collector, successor/beneficiary, stranger, nobody, the current holder signing altered arguments, the current holder authorising the same call on a twin contract}; all histories to fixpoint (payouts / mints / rotations bounded to 3); role queries and the affected configuration compared after every new state".into();
         (C06, o)
     });
 }
